@@ -1,6 +1,116 @@
-(* C18 — stub, replaced below *)
-From Coq Require Import List.
-From PV Require Import C18.Types C18.Gen C18.Model.
-Theorem C18_stub : min_limit = 9.
-Proof. reflexivity. Qed.
-Print Assumptions C18_stub.
+(* C18 — Line-length limiting keeps the program and respects the limit.  Property theorems only.
+   Model: C18/Model.v (faithful to src/psyclone/line_length.py for Latin-1 text and limits
+   L >= min_limit = 9; tables from the generated C18/Gen.v).  Spec of "joined": C18/Join.v. *)
+From Coq Require Import List Arith Bool NArith.
+Import ListNotations.
+From PV Require Import C18.Types C18.Gen C18.Model C18.Join C18.LimitProofs C18.JoinStmt C18.JoinCmt
+  C18.JoinAll C18.Witness.
+
+(* 1. no output line is longer than the limit (per line and for whole texts), for every limit *)
+Theorem C18_limit_respected : forall L l ls,
+  process_line L l = Ok ls -> Forall (fun x => length x <= L) ls.
+Proof. exact limit_respected_line. Qed.
+Print Assumptions C18_limit_respected.
+
+Theorem C18_limit_respected_text : forall L t t',
+  process_text L t = TOk t' -> Forall (fun x => length x <= L) (split_nl t') /\ long_lines L t' = false.
+Proof. intros L t t' H. split; [exact (limit_respected_text L t t' H) | exact (long_lines_false_after L t t' H)]. Qed.
+Print Assumptions C18_limit_respected_text.
+
+(* 2. applying the limiter again changes nothing *)
+Theorem C18_idempotent : forall L t t', process_text L t = TOk t' -> process_text L t' = TOk t'.
+Proof. exact idempotent_text. Qed.
+Print Assumptions C18_idempotent.
+
+(* 3. the model's recursion is total: the continuation loop always terminates within its fuel *)
+Theorem C18_process_total : forall L l, process_line L l <> OutOfFuel.
+Proof. exact process_line_total. Qed.
+Print Assumptions C18_process_total.
+
+(* 4. "never fails on text it is asked to wrap".
+   FULL statement (FALSE of the faithful model, see C18_never_fails_refuted):
+     forall L l, process_line L l <> Err.
+   Proved part: no InternalError when every over-long remainder of the line has a break key inside
+   the continuation window (`breakable`, decidable).  Missing: lines with a key-free stretch longer
+   than the window (long names, blank-free character literals). *)
+Theorem C18_never_fails_partial : forall L l, breakable L l = true -> process_line L l <> Err.
+Proof. exact never_fails_partial_. Qed.
+Print Assumptions C18_never_fails_partial.
+
+Theorem C18_never_fails_refuted : exists L l, 40 <= L <= 132 /\ L < length l /\ process_line L l = Err.
+Proof. exact never_fails_refuted_. Qed.
+Print Assumptions C18_never_fails_refuted.
+
+(* 5. "means exactly the same program once continuation lines are joined".
+   FULL statement (FALSE of the faithful model, see the five *_refuted theorems):
+     forall L l ls r, join [l] = Some r -> process_line L l = Ok ls ->
+       exists r', join ls = Some r' /\ jequiv r' r = true.
+   Proved part: it holds whenever the line, read on its own by the Fortran rules, is exactly one
+   statement without trailing comment and trailing white space / one directive without trailing
+   comment / one comment, of the kind the limiter takes it for (`safe`).  jequiv: statements and
+   comments exactly, directives modulo white space following white space or `,` `)` `=`. *)
+Theorem C18_join_process_partial : forall L l ls r,
+  safe l = true -> join [l] = Some r -> process_line L l = Ok ls ->
+  exists r', join ls = Some r' /\ jequiv r' r = true.
+Proof. exact join_process_partial_. Qed.
+Print Assumptions C18_join_process_partial.
+
+(* the exact forms behind it *)
+Theorem C18_join_statement_exact : forall L l ls t,
+  line_type l = Statement \/ line_type l = Unknown ->
+  join [l] = Some ([(KStmt, t)], []) -> last_nonws l = true ->
+  process_line L l = Ok ls -> join ls = Some ([(KStmt, t)], []).
+Proof. exact join_process_stmt. Qed.
+Print Assumptions C18_join_statement_exact.
+
+Theorem C18_join_comment_exact : forall L l ls cm,
+  line_type l = CommentT -> join [l] = Some ([], [cm]) ->
+  process_line L l = Ok ls -> join ls = Some ([], [cm]).
+Proof. exact join_process_cmt. Qed.
+Print Assumptions C18_join_comment_exact.
+
+Theorem C18_join_directive_blanks : forall L l ls t,
+  (line_type l = Omp /\ join [l] = Some ([(KOmp, t)], []) \/ line_type l = Acc /\ join [l] = Some ([(KAcc, t)], [])) ->
+  process_line L l = Ok ls ->
+  exists k t', join ls = Some ([(k, t')], []) /\ join [l] = Some ([(k, t)], []) /\ squeeze true t' = squeeze true t.
+Proof.
+  intros L l ls t [[Ht Hj] | [Ht Hj]] H.
+  - destruct (join_process_omp L l ls t Ht Hj H) as [t' [J S]]. exists KOmp, t'. repeat split; assumption.
+  - destruct (join_process_acc L l ls t Ht Hj H) as [t' [J S]]. exists KAcc, t'. repeat split; assumption.
+Qed.
+Print Assumptions C18_join_directive_blanks.
+
+(* refutations of the full join statement on the faithful model (each replayed on the implementation) *)
+Theorem C18_trailing_comment_refuted : exists L l, 40 <= L <= 132 /\ line_type l = Unknown /\ join_broken L l.
+Proof. exact trailing_comment_refuted_. Qed.
+Print Assumptions C18_trailing_comment_refuted.
+
+Theorem C18_conditional_compilation_refuted : exists L l, 40 <= L <= 132 /\ line_type l = CommentT /\ join_broken L l.
+Proof. exact cond_comp_refuted_. Qed.
+Print Assumptions C18_conditional_compilation_refuted.
+
+Theorem C18_directive_comment_refuted : exists L l, 40 <= L <= 132 /\ line_type l = Omp /\ join_broken L l.
+Proof. exact directive_comment_refuted_. Qed.
+Print Assumptions C18_directive_comment_refuted.
+
+Theorem C18_lone_ampersand_refuted : exists L l, 40 <= L <= 132 /\ line_type l = Unknown /\ join_broken L l.
+Proof. exact lone_ampersand_refuted_. Qed.
+Print Assumptions C18_lone_ampersand_refuted.
+
+Theorem C18_sentinel_prefix_refuted :
+  exists L l, 40 <= L <= 132 /\ line_type l = Omp /\ join [l] = Some ([], [lstrip l]) /\ join_broken L l.
+Proof. exact sentinel_prefix_refuted_. Qed.
+Print Assumptions C18_sentinel_prefix_refuted.
+
+(* non-vacuity: five concrete lines (call, declaration with a character literal, !$omp, !$ACC, comment)
+   longer than the limit 60 are safe, breakable, really wrapped into several lines within the limit
+   and join back *)
+Example C18_nonvacuous :
+  forallb (nontrivial 60) [ex_stmt; ex_decl; ex_omp; ex_acc; ex_cmt] = true /\
+  map line_type [ex_stmt; ex_decl; ex_omp; ex_acc; ex_cmt] = [Statement; Statement; Omp; Acc; CommentT].
+Proof. exact nonvacuous_. Qed.
+Print Assumptions C18_nonvacuous.
+
+Example C18_nonvacuous_text : exists t t', process_text 60 t = TOk t' /\ t <> t' /\ process_text 60 t' = TOk t'.
+Proof. exact example_text. Qed.
+Print Assumptions C18_nonvacuous_text.
